@@ -49,7 +49,7 @@ func genC12(t *rapid.T, thorough bool) C12Case {
 }
 
 func checkC12(c C12Case, o *Obs) error {
-	src := []byte(c.Src)
+	src := window(c.Src) // valid bases follow the sequence in its backing array
 	k := c.K
 	if k < 1 {
 		k = 1
